@@ -269,6 +269,9 @@ func (e *ceEnv) eval(v ssa.Value) av {
 		return e.eval(x.X)
 	case *ssa.Convert:
 		a := e.eval(x.X)
+		if len(a.syms) == 1 && a.syms[0] == "fspecial" {
+			return a // a non-finite float stays non-finite through float conversions
+		}
 		if a.isInt {
 			// widening/narrowing of a known small constant or sign class of a non-negative value
 			if a.c != nil {
